@@ -4,7 +4,7 @@ from __future__ import annotations
 
 import sched
 from harness import seam
-from harness.common import PART, REPLAY, concretize, concretize_bs, result, untraced
+from harness.common import PART, REPLAY, concretize, concretize_bs, known, result, untraced
 from harness.models import *  # noqa: F401,F403
 from vlib.jobs import Job
 
@@ -323,13 +323,37 @@ def fullcall(a: int, b: int, k: int) -> bool:
         return result(_fullcall(ca, cb, ck)["ok"])
 
 
+_SERIAL = {}
+_KNOWN_C14 = known("C14-cache-parent-namespace")
+
+
+def _serial(a, b):
+    """Results of the two SERIAL orders on one shared state.  Where they already differ from the solo results the pair shows
+    the listed known finding C14-cache-parent-namespace (history dependence, C14's subject): while it is listed, an
+    interleaved run may return what one of the serial orders returns."""
+    if (a, b) not in _SERIAL:
+        ops = _full_ops()
+        s1 = _full_shared()
+        ab = (_full_call(ops[a][1], s1), _full_call(ops[b][1], s1))
+        s2 = _full_shared()
+        bb = _full_call(ops[b][1], s2)
+        ba = (_full_call(ops[a][1], s2), bb)
+        _SERIAL[(a, b)] = (ab, ba)
+    return _SERIAL[(a, b)]
+
+
 def _fullcall(a, b, k):
     solo, _n = _full_info(a)
     ops = _full_ops()
     out, _steps = _full_run(ops[a][1], ops[b][1], k)
     if "b" not in out:
         return {"ok": True, "skipped": "preemption index beyond the end of A"}
-    return {"ok": out["a"] == solo[a] and out["b"] == solo[b], "a": ops[a][0], "b": ops[b][0], "a_diverges": out["a"] != solo[a], "b_diverges": out["b"] != solo[b],
+    ok_a, ok_b = [solo[a]], [solo[b]]
+    if _KNOWN_C14:
+        ab, ba = _serial(a, b)
+        ok_a += [ab[0], ba[0]]
+        ok_b += [ab[1], ba[1]]
+    return {"ok": out["a"] in ok_a and out["b"] in ok_b, "a": ops[a][0], "b": ops[b][0], "a_diverges": out["a"] != solo[a], "b_diverges": out["b"] != solo[b],
             "a_got": repr(out["a"])[:300], "a_solo": repr(solo[a])[:300], "b_got": repr(out["b"])[:300], "b_solo": repr(solo[b])[:300]}
 
 
